@@ -19,6 +19,11 @@ pub fn set_step(step: usize) {
     }
 }
 
+/// Step of the case announced on this thread (used by `replay` to report where it died).
+pub fn announce_replay(text: &str) {
+    announce(0, text);
+}
+
 thread_local! {
     static SLOT: Cell<usize> = const { Cell::new(usize::MAX) };
 }
@@ -39,6 +44,24 @@ pub fn clear(slot: usize) {
     }
 }
 
+unsafe fn put(fd: libc::c_int, bytes: &[u8]) {
+    libc::write(fd, bytes.as_ptr() as *const _, bytes.len());
+}
+
+unsafe fn put_num(fd: libc::c_int, mut v: usize) {
+    let mut buf = [b'0'; 20];
+    let mut i = buf.len();
+    loop {
+        i -= 1;
+        buf[i] = b'0' + (v % 10) as u8;
+        v /= 10;
+        if v == 0 {
+            break;
+        }
+    }
+    put(fd, &buf[i..]);
+}
+
 extern "C" fn handler(sig: libc::c_int) {
     unsafe {
         let path = PATH.load(Ordering::Acquire);
@@ -46,41 +69,36 @@ extern "C" fn handler(sig: libc::c_int) {
         if !path.is_null() {
             let fd = libc::open(path as *const libc::c_char, libc::O_WRONLY | libc::O_CREAT | libc::O_TRUNC, 0o644);
             if fd >= 0 {
-                let head = b"{\"signal\": ";
-                libc::write(fd, head.as_ptr() as *const _, head.len());
-                let digits = [b'0' + (sig / 10) as u8, b'0' + (sig % 10) as u8];
-                libc::write(fd, digits.as_ptr() as *const _, 2);
-                let st = b", \"step\": ";
-                libc::write(fd, st.as_ptr() as *const _, st.len());
-                let mut step = if slot < MAX { STEP[slot].load(Ordering::Relaxed) } else { 0 };
-                let mut buf = [b'0'; 20];
-                let mut i = buf.len();
-                loop {
-                    i -= 1;
-                    buf[i] = b'0' + (step % 10) as u8;
-                    step /= 10;
-                    if step == 0 {
-                        break;
-                    }
-                }
-                libc::write(fd, buf.as_ptr().add(i) as *const _, buf.len() - i);
-                let mid = b", \"replay\": ";
-                libc::write(fd, mid.as_ptr() as *const _, mid.len());
-                let mut wrote = false;
+                put(fd, b"{\"signal\": ");
+                put_num(fd, sig as usize);
+                // the crashing thread's worker slot, or -1 when the signal arrived on another
+                // thread (a rayon pool thread): then every running case is a candidate
+                put(fd, b", \"slot\": ");
                 if slot < MAX {
-                    let p = CASE_PTR[slot].load(Ordering::Acquire);
-                    let n = CASE_LEN[slot].load(Ordering::Acquire);
+                    put_num(fd, slot);
+                } else {
+                    put(fd, b"-1");
+                }
+                put(fd, b", \"cases\": [");
+                let mut first = true;
+                for i in 0..MAX {
+                    let p = CASE_PTR[i].load(Ordering::Acquire);
+                    let n = CASE_LEN[i].load(Ordering::Acquire);
                     if !p.is_null() && n > 0 {
+                        if !first {
+                            put(fd, b", ");
+                        }
+                        first = false;
+                        put(fd, b"{\"slot\": ");
+                        put_num(fd, i);
+                        put(fd, b", \"step\": ");
+                        put_num(fd, STEP[i].load(Ordering::Relaxed));
+                        put(fd, b", \"replay\": ");
                         libc::write(fd, p as *const _, n);
-                        wrote = true;
+                        put(fd, b"}");
                     }
                 }
-                if !wrote {
-                    let null = b"null";
-                    libc::write(fd, null.as_ptr() as *const _, null.len());
-                }
-                let tail = b"}\n";
-                libc::write(fd, tail.as_ptr() as *const _, tail.len());
+                put(fd, b"]}\n");
                 libc::close(fd);
             }
         }
